@@ -46,14 +46,16 @@ vars == <<s, last>>
 vw == s
 
 AllDeviations == {"RenameKeepsLabel", "WsRemoveKeepsChild", "HoleRemovalKeepsObjectRows",
-                  "HoleRemovalKeepsGroupChild", "StalePgIdCache", "EmptyTableRaises", "TableByLabel"}
+                  "HoleRemovalKeepsGroupChild", "StalePgIdCache", "EmptyTableRaises", "TableByLabel",
+                  "CopySharesRecords", "PlainChildNotUnlinked", "UngroupedDataNotLoaded", "FailedCreateKeepsKey", "HoleRemovalKeepsEmptyPgRow"}
 Dev(d) == d \in Deviations
 
 NDV == 0 - 1
 Holes == 1..MaxHoles
-DataLabels == {"DEPTH", "FROM", "TO"} \cup Names
+\* "o" : OBJECT-association data of a hole (hole.add_data without depth / from-to): it belongs to no property group
+DataLabels == {"DEPTH", "FROM", "TO", "o"} \cup Names
 Labels == DataLabels \cup {"Surveys", "PGIDS"}
-NameIdx(n) == CASE n = "DEPTH" -> 1 [] n = "FROM" -> 2 [] n = "TO" -> 3 [] n = "a" -> 4 [] n = "b" -> 5
+NameIdx(n) == CASE n = "DEPTH" -> 1 [] n = "FROM" -> 2 [] n = "TO" -> 3 [] n = "a" -> 4 [] n = "b" -> 5 [] n = "o" -> 7
 AssocOf(kind) == IF kind = "D" THEN <<"DEPTH">> ELSE <<"FROM", "TO">>
 PgName(kind) == IF kind = "D" THEN "depth_0" ELSE "Interval_0"
 PgType(kind) == IF kind = "D" THEN "Depth table" ELSE "Interval table"
@@ -142,7 +144,8 @@ KeyNames(rec) == {rec.keys[i].n : i \in DOMAIN rec.keys}
 \* ------------------------------------------------------------------ live objects
 \* hole object = [st in {"none","live","gone"}, ch: <<child>>, pgs: <<pg>>]
 \* child (ConcatenatedData) = [id, name, vals, ver];  pg (ConcatenatedPropertyGroup) = [id, name, ptype, props]
-NoHole == [st |-> "none", ch |-> <<>>, pgs |-> <<>>]
+\*               pgn = "hole._property_groups is None" (never had a group, or re-opened without any)
+NoHole == [st |-> "none", ch |-> <<>>, pgs |-> <<>>, pgn |-> TRUE]
 ChildIdxByName(hole, n) == IF \E i \in DOMAIN hole.ch : hole.ch[i].name = n
                            THEN CHOOSE i \in DOMAIN hole.ch : hole.ch[i].name = n /\ \A j \in 1..(i-1) : hole.ch[j].name # n
                            ELSE 0
@@ -275,7 +278,8 @@ AddData(S, h, kind, name, n, vals) ==
         \* new table: find_or_create_property_group(name=depth_0|Interval_0) then DEPTH | FROM, TO are added first
         p == IF t # 0 THEN S.hs[h].pgs[t].id ELSE NewPgId(S, h, kind)
         S0 == IF t # 0 THEN S
-              ELSE [S EXCEPT !.hs[h].pgs = Append(@, [id |-> p, name |-> PgName(kind), ptype |-> PgType(kind), props |-> <<>>])]
+              ELSE [S EXCEPT !.hs[h].pgs = Append(@, [id |-> p, name |-> PgName(kind), ptype |-> PgType(kind), props |-> <<>>]),
+                             !.hs[h].pgn = FALSE]
         MkAssoc[i \in 0..Len(AssocOf(kind))] ==
             IF i = 0 THEN S0
             ELSE LET an == AssocOf(kind)[i]
@@ -307,11 +311,12 @@ ReopenHole(S, h) ==
         pgs == IF ids = NoneVals THEN <<>>
                ELSE [i \in DOMAIN ids |-> LET r == GetRec(S, ids[i]) IN
                                           [id |-> ids[i], name |-> r.name, ptype |-> r.ptype, props |-> r.props]]
-    IN [st |-> "live", ch |-> ch, pgs |-> pgs]
+    IN [st |-> "live", ch |-> ch, pgs |-> pgs, pgn |-> pgs = <<>>]
 ReopenState(S) ==
     LET hs2 == [h \in Holes |-> IF h \in Range(S.objIds) THEN ReopenHole(S, h)
                                ELSE IF S.hs[h].st = "none" THEN NoHole ELSE [NoHole EXCEPT !.st = "gone"]]
-    IN [S EXCEPT !.hs = hs2, !.gch = S.objIds, !.pgc = Range(S.cat["PGIDS"])]
+    IN [S EXCEPT !.hs = hs2, !.gch = S.objIds, !.pgc = Range(S.cat["PGIDS"]),
+                 !.plain = IF S.plain = "detached" THEN "live" ELSE S.plain]
 
 \* ------------------------------------------------------------------ what the API shows (observation)
 \* hole.get_data_list() = the 'Property:' keys; hole.get_data(name)[0].values = first child of that name
@@ -409,7 +414,11 @@ TableView(S) == [p \in PgNames |-> [pred |-> PredTable(S, p), ideal |-> IdealTab
 \* ------------------------------------------------------------------ behaviour
 EmptyStore == [gch |-> <<>>, hs |-> [h \in Holes |-> NoHole], attrs |-> <<>>, akeys |-> <<>>, objIds |-> <<>>,
                labels |-> {}, cat |-> [l \in Labels |-> <<>>], idx |-> [l \in Labels |-> <<>>], pgc |-> {},
-               broken |-> FALSE, halt |-> FALSE, sess |-> "mixed"]
+               broken |-> FALSE, halt |-> FALSE, sess |-> "mixed",
+               \* the group's plain (non-concatenated) child, a comment: "none" (scene without one), "live", "gone",
+               \* as built also "detached" (gone from group.children, still linked in the file) and "dangling"
+               \* (flat node deleted, link under Groups/<uid>/Data left behind)
+               plain |-> IF "RemovePlainChild" \in Acts THEN "live" ELSE "none"]
 NoTgt == [holes |-> {}, names |-> {}]
 Init == s = EmptyStore /\ last = [act |-> "Init", args |-> [x |-> 0], out |-> "ok", dev |-> {}, tgt |-> NoTgt]
 
@@ -431,7 +440,7 @@ AssocNames == {"DEPTH", "FROM", "TO"}
 \* Drillhole.create(ws, parent=group, ...) -> add_save_concatenated(hole) (117-142)
 Surv(h) == <<h * 10 + 1, h * 10 + 2>>
 AddHoleOp(S, h) ==
-    LET S1 == [S EXCEPT !.gch = Append(@, h), !.hs[h] = [st |-> "live", ch |-> <<>>, pgs |-> <<>>]]
+    LET S1 == [S EXCEPT !.gch = Append(@, h), !.hs[h] = [st |-> "live", ch |-> <<>>, pgs |-> <<>>, pgn |-> TRUE]]
         S2 == SetRec(S1, h, Rec(h, "hole", "hole"))
         S3 == [S2 EXCEPT !.objIds = Append(@, h)]
     IN UpdateArray(S3, "Surveys", FALSE, h, 0, Surv(h), TRUE)
@@ -568,10 +577,15 @@ RemoveHole(via) ==
              tgt == [holes |-> {h}, names |-> DataLabels]
              pgids == [i \in DOMAIN s.hs[h].pgs |-> s.hs[h].pgs[i].id]
              RmPgs[i \in 0..Len(pgids)] == IF i = 0 THEN s ELSE RemovePgCore(RmPgs[i - 1], h, pgids[i])
-             S1 == RmPgs[Len(pgids)]
+             S1a == RmPgs[Len(pgids)]
+             S1 == RemoveChildren(S1a, h, [i \in DOMAIN S1a.hs[h].ch |-> S1a.hs[h].ch[i].id])     \* data outside every group
              S2 == DropRec([S1 EXCEPT !.objIds = Without(@, h), !.hs[h] = [NoHole EXCEPT !.st = "gone"]], h)
+             \* the repaired remove_entity calls update_array_attribute(hole, "property_groups", remove=True): with
+             \* _property_groups None the field is not translated to "Property Group IDs" (632-636) and the (empty) row stays
+             keepPg == Dev("HoleRemovalKeepsEmptyPgRow") /\ s.hs[h].pgn
              S3 == IF Dev("HoleRemovalKeepsObjectRows") THEN S2
-                   ELSE UpdateArray(UpdateArray(S2, "Surveys", FALSE, h, 0, <<>>, FALSE), "PGIDS", FALSE, h, 0, <<>>, FALSE)
+                   ELSE LET A == UpdateArray(S2, "Surveys", FALSE, h, 0, <<>>, FALSE)
+                        IN IF keepPg THEN A ELSE UpdateArray(A, "PGIDS", FALSE, h, 0, <<>>, FALSE)
              S4 == IF Dev("HoleRemovalKeepsGroupChild") THEN S3 ELSE [S3 EXCEPT !.gch = Without(@, h)]
          IN IF via = "ws" /\ ~GetRec(s, h).ad       \* protected hole: UserWarning, nothing changes
             THEN Refused(act, args)
@@ -579,7 +593,8 @@ RemoveHole(via) ==
             THEN Done([s EXCEPT !.broken = TRUE], act, args, "raises",
                       IF \E i \in DOMAIN s.hs[h].ch : \A k \in DOMAIN GetRec(s, h).keys : GetRec(s, h).keys[k].d # s.hs[h].ch[i].id
                       THEN {"WsRemoveKeepsChild"} ELSE {"RenameKeepsLabel"}, tgt)
-            ELSE Done(S4, act, args, "ok", Deviations \cap {"HoleRemovalKeepsObjectRows", "HoleRemovalKeepsGroupChild"}, tgt)
+            ELSE Done(S4, act, args, "ok", (Deviations \cap {"HoleRemovalKeepsObjectRows", "HoleRemovalKeepsGroupChild"})
+                                           \cup (IF keepPg /\ FetchIndex(s, "PGIDS", FALSE, h) # 0 THEN {"HoleRemovalKeepsEmptyPgRow"} ELSE {}), tgt)
 
 \* hole.remove_children([pg])  |  workspace.remove_entity(pg)
 RemovePropertyGroup ==
@@ -643,6 +658,77 @@ CopyGroup ==
          IN Done(IF hit THEN G[Len(ghosts)] ELSE s, "CopyGroup", [mode |-> mode, holes |-> holes], "ok",
                  IF hit THEN {"HoleRemovalKeepsGroupChild"} ELSE {}, NoTgt)
 
+\* ------------------------------------------------------------------ round 3 actions
+\* workspace.remove_entity(comment) | group.remove_children([comment]) for the plain child of the group.
+\* As built Concatenator.remove_children (462-478) only calls remove_entity, which knows concatenated entities only:
+\* the parent never unlinks the child in the file (EntityContainer.remove_children -> Workspace.remove_children does).
+RemovePlainChild ==
+    \E via \in {"ws", "parent"} :
+      /\ s.plain = "live"
+      /\ Done([s EXCEPT !.plain = IF ~Dev("PlainChildNotUnlinked") THEN "gone"
+                                  ELSE IF via = "ws" THEN "dangling" ELSE "detached"],
+              "RemovePlainChild", [via |-> via], "ok", Deviations \cap {"PlainChildNotUnlinked"}, NoTgt)
+
+\* group.copy(parent=other_workspace), then an edit of the COPY (remove a hole, or one of its payload data), then the
+\* harness asks the SOURCE whether its object ids and records are still there (outcome ok) or not (outcome exception).
+\* As built the fast path of Concatenator.copy (239-243) hands the very same dict / list objects to the copy.
+CopyEdit ==
+    \E h \in Holes, name \in Names \cup {""} :
+      /\ \A x \in LiveHoles(s) : ~Unclean(s, x)
+      /\ Usable(h) /\ ~Corrupt(s)
+      /\ name # "" => ChildIdxByName(s.hs[h], name) # 0
+      /\ IF Dev("CopySharesRecords")
+         THEN Done([s EXCEPT !.broken = TRUE], "CopyEdit", [h |-> h, name |-> name], "raises", {"CopySharesRecords"}, NoTgt)
+         ELSE Done(s, "CopyEdit", [h |-> h, name |-> name], "ok", {}, NoTgt)
+
+\* hole.add_data({"o": {"association": "OBJECT", "values": ...}}) : concatenated data outside every property group
+AddObjectData ==
+    \E h \in Holes :
+      /\ Usable(h) /\ ~HasKey(GetRec(s, h), "o")
+      /\ LET d == NewDataId(s, h, "o")
+             vals == Toks(d, 1, 1)
+         IN Done(CreateData(s, h, d, "o", vals), "AddObjectData", [h |-> h, vals |-> vals, new |-> d], "ok", {},
+                 [holes |-> {h}, names |-> {"o"}])
+
+\* hole.add_data of a name whose constructor fails after the parent was set (INTEGER data given decimals): refused.
+\* As built ConcatenatedData.parent (data.py:63-75) has already added the object to hole.children and the
+\* 'Property:<name>' key to the hole record; nothing takes them back.  The model stops after such a state.
+AddBadData ==
+    \E h \in Holes, name \in Names :
+      /\ Usable(h) /\ TableOf(s, h, "D") # 0 /\ ~HasKey(GetRec(s, h), name) /\ ChildIdxByName(s.hs[h], name) = 0
+      /\ LET d == NewDataId(s, h, name)
+             hr == GetRec(s, h)
+             args == [h |-> h, name |-> name, depths |-> ReadLive(s, h, "DEPTH"), new |-> d]
+             S1 == [s EXCEPT !.hs[h].ch = Append(@, [id |-> d, name |-> name, vals |-> NoneVals, ver |-> 1]), !.halt = TRUE]
+             S2 == SetRec(S1, h, [hr EXCEPT !.keys = Append(@, [n |-> name, d |-> d])])
+         IN IF Dev("FailedCreateKeepsKey")
+            THEN Done(S2, "AddBadData", args, "refused", {"FailedCreateKeepsKey"}, [holes |-> {h}, names |-> {name}])
+            ELSE Refused("AddBadData", args)
+
+\* ws.close(); Workspace(path); group.remove_children([hole]) straight away - nothing of the hole is read before.
+\* As built remove_entity(hole) removes `hole.children` as loaded so far: the property groups are there (loaded with the
+\* workspace), data outside every group are not (object.py:77-93 loads them on first get_entity) and stay behind.
+ReopenRemoveHole ==
+    \E h \in Holes :
+      /\ s.hs[h].st = "live" /\ ~Corrupt(s) /\ GetRec(s, h).ad
+      /\ \A x \in LiveHoles(s) : ~Unclean(s, x)
+      /\ LET R == ReopenState(s)
+             pgids == [i \in DOMAIN R.hs[h].pgs |-> R.hs[h].pgs[i].id]
+             RmPgs[i \in 0..Len(pgids)] == IF i = 0 THEN R ELSE RemovePgCore(RmPgs[i - 1], h, pgids[i])
+             S1 == RmPgs[Len(pgids)]
+             oi == ChildIdxByName(S1.hs[h], "o")
+             lost == Dev("UngroupedDataNotLoaded") /\ oi # 0
+             S1b == IF oi # 0 /\ ~lost THEN RemoveChild(S1, h, S1.hs[h].ch[oi].id) ELSE S1
+             S2 == DropRec([S1b EXCEPT !.objIds = Without(@, h), !.gch = Without(@, h), !.hs[h] = [NoHole EXCEPT !.st = "gone"]], h)
+             keepPg == Dev("HoleRemovalKeepsEmptyPgRow") /\ R.hs[h].pgn
+             S3 == IF Dev("HoleRemovalKeepsObjectRows") THEN S2
+                   ELSE LET A == UpdateArray(S2, "Surveys", FALSE, h, 0, <<>>, FALSE)
+                        IN IF keepPg THEN A ELSE UpdateArray(A, "PGIDS", FALSE, h, 0, <<>>, FALSE)
+         IN Done(S3, "ReopenRemoveHole", [h |-> h], "ok",
+                 (IF lost THEN {"UngroupedDataNotLoaded"} ELSE {}) \cup (Deviations \cap {"HoleRemovalKeepsObjectRows"})
+                   \cup (IF keepPg /\ FetchIndex(R, "PGIDS", FALSE, h) # 0 THEN {"HoleRemovalKeepsEmptyPgRow"} ELSE {}),
+                 [holes |-> {h}, names |-> DataLabels])
+
 Enabled(a) == a \in Acts
 Next ==
     /\ ~s.broken /\ ~s.halt
@@ -663,6 +749,11 @@ Next ==
                   \/ Enabled("Reopen") /\ Reopen
                   \/ Enabled("CopyGroup") /\ CopyGroup
                   \/ Enabled("Protect") /\ Protect
+                  \/ Enabled("RemovePlainChild") /\ RemovePlainChild
+                  \/ Enabled("CopyEdit") /\ CopyEdit
+                  \/ Enabled("AddObjectData") /\ AddObjectData
+                  \/ Enabled("AddBadData") /\ AddBadData
+                  \/ Enabled("ReopenRemoveHole") /\ ReopenRemoveHole
        \* every state reached by the last allowed action is still re-opened once (read back from the file)
        \/ TLCGet("level") = MaxLevel + 1 /\ Enabled("Reopen") /\ Reopen
 Spec == Init /\ [][Next]_vars
@@ -736,10 +827,12 @@ Isolation ==
 ProtectedStay ==
     [][(last'.act \in {"RemoveHoleViaWorkspace", "RemoveDataViaWorkspace"} /\ last'.out = "refused") => s' = s]_vars
 
+PlainChildClean == s.plain \in {"none", "live", "gone"}
+
 InvNames == <<"AllTiled", "NoDuplicateOwner", "RowsOwnedLive", "OneRecordEach", "KeysMatchChildren",
-              "PgsConsistent", "ReadBackOK", "TableOK", "NeverBroken", "GroupChildrenLive", "PgCacheFresh">>
+              "PgsConsistent", "ReadBackOK", "TableOK", "NeverBroken", "GroupChildrenLive", "PgCacheFresh", "PlainChildClean">>
 InvVals == <<AllTiled, NoDuplicateOwner, RowsOwnedLive, OneRecordEach, KeysMatchChildren,
-             PgsConsistent, ReadBackOK, TableOK, NeverBroken, GroupChildrenLive, PgCacheFresh>>
+             PgsConsistent, ReadBackOK, TableOK, NeverBroken, GroupChildrenLive, PgCacheFresh, PlainChildClean>>
 Bad == IF s.broken THEN {"NeverBroken"} ELSE {InvNames[i] : i \in {j \in DOMAIN InvNames : ~InvVals[j]}}
 
 \* ------------------------------------------------------------------ export (harness/tlc.py)
